@@ -65,11 +65,17 @@ func c17g(c *Ctx) {
 		instrs(fn, func(in ssa.Instruction) {
 			var target ssa.Value
 			what := ""
+			isMapOp := false
 			switch x := in.(type) {
 			case *ssa.Store:
 				target, what = x.Addr, "stores into"
 			case *ssa.MapUpdate:
-				target, what = x.Map, "updates a map of"
+				target, what, isMapOp = x.Map, "updates a map of", true
+			case ssa.CallInstruction:
+				if calleeName(x) != "builtin:delete" {
+					return
+				}
+				target, what, isMapOp = x.Common().Args[0], "deletes from a map of", true
 			default:
 				return
 			}
@@ -78,8 +84,15 @@ func c17g(c *Ctx) {
 				return
 			}
 			n++
-			if local {
+			// a local under construction may have its fields set; the maps inside a table that was
+			// decoded from the file are the file's content and are not edited afterwards, local or not
+			if local && !isMapOp {
 				return
+			}
+			if local && isMapOp {
+				if _, made := target.(*ssa.MakeMap); made {
+					return
+				}
 			}
 			nBad++
 			c.Bad(fk+"/writes-font-table["+pretty(c.term(fn, target))+"]", c.W.Pos(in.Pos()), fn.Name()+" "+what+" the shared font table ("+pretty(c.term(fn, target))+"): one text's format() parameters — or the content of a poryswitch case that is not selected — would change how later texts are laid out")
